@@ -700,8 +700,11 @@ pub fn oracle_c20(c: &Corpus, seed: u64, tier: &str) -> Vec<Report> {
                                 for x in &bp {
                                     if let Some(pos) = src.iter().position(|y| **y == x.1) { src.remove(pos); } else if alien.is_none() { alien = Some(x); }
                                 }
-                                if !src.is_empty() {
+                                if !src.is_empty() && alien.is_none() {
                                     r2.count("source-literal-not-in-printed-tree");
+                                    if r2.samples.len() < 6 {
+                                        r2.sample(serde_json::json!({"note": "source literal absent from the printed tree (not reported here)", "dialect": dn, "text": trunc(s, 160), "printed": trunc(&printed, 160), "missing": src.iter().map(|x| x.to_string()).collect::<Vec<_>>()}));
+                                    }
                                 }
                                 match alien {
                                     Some((kind, body, _)) => fail_capped(&mut r2, &mut caps, 3, format!("print-body/{kind}/{}", body_feature(body)), dn, raw, s, format!("printed body={body:?} printed={printed:?}")),
